@@ -312,12 +312,14 @@ def openStreams (M : Nat) : St → Nat → List Nat → List Nat → St × Bool
       openStreams M ((s.run [.transfer (.temp (2 * m)) (.handle h .io)]).setH h (fun x => { x with readable := true }))
         (m + 1) (h :: done) rest
 
-/-- uv__spawn_and_init_child: the exec-error pipe (process.c:939-977), created and closed inside the call -/
+/-- uv__spawn_and_init_child: the exec-error pipe (process.c:939-977), created and closed inside the call.
+    Between creation and the two closes sits `fork()` (uv__spawn_and_init_child_fork, process.c:839-878): whether the
+    kernel grants it or refuses it (EAGAIN / ENOMEM), the write end is closed at :955 and the read end at :981 -/
 def spawnExecPipe (s : St) (inj : Inj) (M : Nat) : St :=
   match s.fails inj "pipe2" with
   | some _ => s.tick inj "pipe2"
-  | none => (s.tick inj "pipe2").run [.create .pipe2 .pipe (.temp (2 * M)), .create .pipe2 .pipe (.temp (2 * M + 1)),
-                                      .closeOwner (.temp (2 * M + 1)) false, .closeOwner (.temp (2 * M)) false]
+  | none => ((((s.tick inj "pipe2").run [.create .pipe2 .pipe (.temp (2 * M)), .create .pipe2 .pipe (.temp (2 * M + 1))]).tick
+              inj "fork").run [.closeOwner (.temp (2 * M + 1)) false, .closeOwner (.temp (2 * M)) false])
 
 /-- `cs`: containers; index 1 is always an inherited descriptor of the harness (no ledger effect). -/
 def spawnOp (s : St) (inj : Inj) (ok : Bool) (cs : List Cont) : St :=
@@ -327,7 +329,7 @@ def spawnOp (s : St) (inj : Inj) (ok : Bool) (cs : List Cont) : St :=
   | (s, none) => ret (s.setH p (fun h => { h with st := .closing })) false
   | (s, some M) =>
     -- uv__spawn_and_init_child: the exec-error pipe
-    let execOk := (s.fails inj "pipe2").isNone && ok
+    let execOk := (s.fails inj "pipe2").isNone && (s.fails inj "fork").isNone && ok
     let s := spawnExecPipe s inj M
     match openStreams M s 0 [] (pipeHandles cs) with
     | (s, false) => ret (s.setH p (fun h => { h with st := .closing })) false
@@ -460,7 +462,7 @@ def opUfd (s : St) (kind : String) (at_ : Option Nat) : St :=
   | none => bad s
   | some ks =>
     let stdioClash := match at_ with
-      | some n => n > 1 || s.l.1.led.any (fun e => e.stdio)
+      | some n => n > 2 || s.l.1.led.any (fun e => e.stdio)
       | none => false
     if stdioClash then bad s else
     s.run ((List.range ks.length).map (fun i => Prim.userCreate (ks.getD i .sock) (i = 0 && at_.isSome)))
